@@ -98,7 +98,8 @@ def check(ctx):
     cfg = CFG(ge.node)
 
     def _is_dup(pc):
-        return any("value_counts" in ir.show(c[0], maxdepth=12) for c in pc)
+        # the raise whose path condition looks at duplicates / counts of rows of a frame (any of the pandas idioms)
+        return any(any(w in ir.show(c[0], maxdepth=12) for w in ("value_counts", "duplicated", "is_unique", "nunique", "drop_duplicates")) for c in pc)
 
     gate = [(pc, t, n) for pc, t, n in s.raises
             if "ModelNotEnoughSubunitsException" in ir.show(t, maxdepth=3) and not _is_dup(pc)]
@@ -262,7 +263,9 @@ def check(ctx):
            "n_train is set from reporting_units.shape[0] only" if okn else f"n_train written as {[ast.unparse(v) for _, _, v, _ in nt]}")
 
     # R5 -------------------------------------------------------------------------------------
-    ctx.sites("C14.R5", len(dup), 1, "raise ModelClientException (duplicate ids) in get_estimates")
+    if not dup:
+        ctx.ob("C14.R5.duplicates", f"{ge.qualname}|duplicate ids rejected", False, ge.where(),
+               "no raise in get_estimates is conditioned on repeated unit ids of the reporting frame")
     for pc, t, n in dup:
         exact = t[0] == "call" and t[1][0] == "global" and t[1][1].endswith(":ModelClientException")
         ctx.ob("C14.R5.class", f"{ge.qualname}|duplicate ids raise ModelClientException", exact, ge.where(n),
@@ -279,6 +282,17 @@ def check(ctx):
             gt1 = any(x[0] == "cmp" and x[1] == ">" and x[3] == ("const", 1) for x in ir.walk(l))
             thr = last[0][3] == ("const", 0) and last[0][1] in (">", "!=")
             ok = uses_counts and on_R and gt1 and thr
+            # other exact idioms: R[id].duplicated() / R.duplicated(subset=id) selecting rows, length > 0
+            if not ok and on_R and thr:
+                for x in ir.walk(l):
+                    if x[0] == "call" and x[1][0] == "attr" and x[1][2] == "duplicated":
+                        recv = x[1][1]
+                        sub = dict(x[3]).get("subset", x[2][0] if x[2] else None)
+                        by_id_col = recv[0] == "sub" and recv[2] == ("const", "geographic_unit_fips") and _get_units_elem(recv[1], 0)
+                        by_subset = _get_units_elem(recv, 0) and sub in (("const", "geographic_unit_fips"), ("list", (("const", "geographic_unit_fips"),)))
+                        if by_id_col or by_subset:
+                            ok = True
             detail = ("raises when some unit id of the reporting frame occurs more than once" if ok else
-                      f"duplicate test is {txt[:200]} {last[0][1]} {ir.show(last[0][3])}")
+                      f"duplicate test is {txt[:200]} {last[0][1]} {ir.show(last[0][3])}: it does not count repeated unit ids "
+                      f"(rows that repeat an id but differ in another column pass)")
         ctx.ob("C14.R5.duplicates", f"{ge.qualname}|duplicate ids rejected", ok, ge.where(n), detail)
